@@ -79,6 +79,12 @@ func registerIntrinsics(e *Engine) {
 		if !ok {
 			st.unsupported("vCallMade: value does not hold a MakeFunc closure")
 		}
+		if fv.Made != nil {
+			// the body itself, which takes the arguments as []reflect.Value
+			body := *fv
+			body.Made = nil
+			fv = &body
+		}
 		return st.Call(fv, []Value{a[1]}, nil)
 	}
 	I["vNondetWordN"] = func(st *State, a []Value) Value {
@@ -802,7 +808,10 @@ func registerLibHooks(e *Engine) {
 		for _, e := range el {
 			t, ok := e.(*Term)
 			if !ok || !t.Const {
-				st.unsupported("sort.Strings on symbolic strings")
+				// symbolic contents: recorded as an opaque call, the slice is left as it is
+				// (harnesses that sort symbolic strings compare them as sets)
+				st.events = append(st.events, Event{Tag: "opaque:sort.Strings", Args: a})
+				return nil
 			}
 			ss = append(ss, t.CS)
 		}
